@@ -19,8 +19,9 @@ The order that exists in the code, and that the model reproduces:
 3. fresh HRS: the signer is called, the signature is assigned to the request
    object (`vote.Signature = signature`), then `Update` overwrites the five
    in-memory fields, then `save` runs `validate` (rejects negative round …) and
-   `WriteFileAtomic`.  If `save` fails the error is returned, **the in-memory
-   state stays updated** and the request object keeps the signature.
+   `WriteFileAtomic`.  If `save` fails, `Update` restores the previous in-memory
+   state (`*fs = prev`, since fd7d3fbcc7) and the error is returned; the request
+   object keeps the signature that was assigned to it before `Update`.
 
 Modelling assumption on the file system (the contract of `WriteFileAtomic`,
 POSIX `rename`): at every instant the state file holds either the old or the
@@ -172,11 +173,73 @@ def reuse {σ : Type} (s : State σ) (sb : SignBytes) : State σ × Out σ :=
     else (s, .err .conflict none)
   | _, _ => (s, .panicNoSig)   -- excluded by `checkHRS = same`
 
-/-- The fresh-HRS branch: sign, assign to the request object, `Update` (memory
-first), `save` = `validate` then `WriteFileAtomic`, and only then return. -/
+/-- The fresh-HRS branch: sign, assign to the request object, `Update`, and only
+then return.  `Update` (state.go, since fd7d3fbcc7): `prev := *fs`; set the
+five fields in memory; `save` = `validate` then `WriteFileAtomic`; **on a
+failed save `*fs = prev`** (memory is rolled back) and the error is returned.
+The request object keeps the signature that was assigned before `Update`. -/
 def freshSign {σ : Type} (sign : SignBytes → σ) (p : Persist) (s : State σ) (sb : SignBytes) : State σ × Out σ :=
   let sg := sign sb                                        -- pv.signer.Sign; vote.Signature = signature
   let mem' : SignState σ := ⟨sb.hrs, some sb, some sg⟩      -- fs.Update: the five fields, in memory
+  if !validate mem' then (s, .err .validate (some sg))     -- *fs = prev
+  else match p with
+    | .normal =>
+      if s.failing then (s, .err .save (some sg))          -- *fs = prev
+      else (({ s with mem := mem', disk := mem' } : State σ).release ⟨sb.hrs, sb.body, sb.ts, sg⟩, .sig sg sb.ts)
+    | .killedOld => ({ s with mem := mem' }, .killed)      -- the process dies inside save; its memory is gone
+    | .killedNew => ({ s with mem := mem', disk := mem' }, .killed)
+
+/-- One `SignVote` / `SignProposal`, parametrised by the fresh-HRS branch so that
+the variants below share everything else. -/
+def signReqWith {σ : Type} (fresh : Persist → State σ → SignBytes → State σ × Out σ)
+    (p : Persist) (s : State σ) (q : Req) : State σ × Out σ :=
+  match q.step with
+  | none => (s, .panicVoteType)
+  | some step =>
+    match checkHRS s.mem ⟨q.h, q.r, step⟩ with
+    | .err e => (s, .err e none)
+    | .panicNoSig => (s, .panicNoSig)
+    | .same => reuse s ⟨⟨q.h, q.r, step⟩, q.body, q.ts⟩
+    | .fresh => fresh p s ⟨⟨q.h, q.r, step⟩, q.body, q.ts⟩
+
+/-- Restart: `LoadOrMakeFileState` reads the file. -/
+def restart {σ : Type} (s : State σ) : State σ := { s with mem := s.disk }
+
+def stepWith {σ : Type} (fresh : Persist → State σ → SignBytes → State σ × Out σ)
+    (s : State σ) : Op → State σ × Out σ
+  | .sign q => signReqWith fresh .normal s q
+  | .crash => (restart s, .ok)
+  | .failsave on => ({ s with failing := on }, .ok)
+  | .cut c q =>
+    -- a NEW process (it loads the file: `restart s`) serves this one request and is
+    -- killed inside WriteFileAtomic (or exits after answering); then the next process starts
+    if s.failing then (s, .unsupported)
+    else
+      let r := signReqWith fresh (match c with | .old => .killedOld | .new => .killedNew) (restart s) q
+      (restart r.1, r.2)
+
+def runWith {σ : Type} (fresh : Persist → State σ → SignBytes → State σ × Out σ)
+    (s : State σ) : List Op → State σ
+  | [] => s
+  | op :: ops => runWith fresh (stepWith fresh s op).1 ops
+
+/-- The code as it is: `SignVote` / `SignProposal`; `sign` is the signer (`pv.signer.Sign`). -/
+def signReq {σ : Type} (sign : SignBytes → σ) : Persist → State σ → Req → State σ × Out σ :=
+  signReqWith (freshSign sign)
+def step {σ : Type} (sign : SignBytes → σ) : State σ → Op → State σ × Out σ :=
+  stepWith (freshSign sign)
+def run {σ : Type} (sign : SignBytes → σ) : State σ → List Op → State σ :=
+  runWith (freshSign sign)
+
+/-! ### Variant OLD: `Update` before fd7d3fbcc7 — no roll-back.
+
+On a failed save the error is returned but memory keeps the new H/R/S,
+sign-bytes and signature, which the file does not hold; a repeat of the same
+request is then answered by the same-HRS branch (which persists nothing). -/
+
+def freshSignOld {σ : Type} (sign : SignBytes → σ) (p : Persist) (s : State σ) (sb : SignBytes) : State σ × Out σ :=
+  let sg := sign sb
+  let mem' : SignState σ := ⟨sb.hrs, some sb, some sg⟩
   if !validate mem' then ({ s with mem := mem' }, .err .validate (some sg))
   else match p with
     | .normal =>
@@ -185,73 +248,26 @@ def freshSign {σ : Type} (sign : SignBytes → σ) (p : Persist) (s : State σ)
     | .killedOld => ({ s with mem := mem' }, .killed)
     | .killedNew => ({ s with mem := mem', disk := mem' }, .killed)
 
-/-- One `SignVote` / `SignProposal`. `sign` is the signer (`pv.signer.Sign`). -/
-def signReq {σ : Type} (sign : SignBytes → σ) (p : Persist) (s : State σ) (q : Req) : State σ × Out σ :=
-  match q.step with
-  | none => (s, .panicVoteType)
-  | some step =>
-    match checkHRS s.mem ⟨q.h, q.r, step⟩ with
-    | .err e => (s, .err e none)
-    | .panicNoSig => (s, .panicNoSig)
-    | .same => reuse s ⟨⟨q.h, q.r, step⟩, q.body, q.ts⟩
-    | .fresh => freshSign sign p s ⟨⟨q.h, q.r, step⟩, q.body, q.ts⟩
+def runOld {σ : Type} (sign : SignBytes → σ) : State σ → List Op → State σ :=
+  runWith (freshSignOld sign)
 
-/-- Restart: `LoadOrMakeFileState` reads the file. -/
-def restart {σ : Type} (s : State σ) : State σ := { s with mem := s.disk }
+/-! ### Variant WRONG: release the signature, then persist.
 
-def step {σ : Type} (sign : SignBytes → σ) (s : State σ) : Op → State σ × Out σ
-  | .sign q => signReq sign .normal s q
-  | .crash => (restart s, .ok)
-  | .failsave on => ({ s with failing := on }, .ok)
-  | .cut c q =>
-    -- a NEW process (it loads the file: `restart s`) serves this one request and is
-    -- killed inside WriteFileAtomic (or exits after answering); then the next process starts
-    if s.failing then (s, .unsupported)
-    else
-      let r := signReq sign (match c with | .old => .killedOld | .new => .killedNew) (restart s) q
-      (restart r.1, r.2)
-
-def run {σ : Type} (sign : SignBytes → σ) (s : State σ) : List Op → State σ
-  | [] => s
-  | op :: ops => run sign (step sign s op).1 ops
-
-/-! ### The deliberately WRONG variant: release the signature, then persist.
-
-Identical except that in the fresh branch the signature is handed out before
-`save`; so a kill before the rename (or a failed save) leaves a released
-signature that the file does not know about. -/
+In the fresh branch the signature is handed out before `save`; so a kill before
+the rename (or a failed save) leaves a released signature that the file does
+not know about. -/
 
 def freshSignWrong {σ : Type} (sign : SignBytes → σ) (p : Persist) (s : State σ) (sb : SignBytes) : State σ × Out σ :=
   let sg := sign sb
   let mem' : SignState σ := ⟨sb.hrs, some sb, some sg⟩
   let s1 : State σ := ({ s with mem := mem' } : State σ).release ⟨sb.hrs, sb.body, sb.ts, sg⟩   -- released FIRST
-  if !validate mem' then (s1, .sig sg sb.ts)
+  if !validate mem' then ({ s1 with mem := s.mem }, .sig sg sb.ts)
   else match p with
-    | .normal => if s.failing then (s1, .sig sg sb.ts) else ({ s1 with disk := mem' }, .sig sg sb.ts)
+    | .normal => if s.failing then ({ s1 with mem := s.mem }, .sig sg sb.ts) else ({ s1 with disk := mem' }, .sig sg sb.ts)
     | .killedOld => (s1, .sig sg sb.ts)
     | .killedNew => ({ s1 with disk := mem' }, .sig sg sb.ts)
 
-def signReqWrong {σ : Type} (sign : SignBytes → σ) (p : Persist) (s : State σ) (q : Req) : State σ × Out σ :=
-  match q.step with
-  | none => (s, .panicVoteType)
-  | some step =>
-    match checkHRS s.mem ⟨q.h, q.r, step⟩ with
-    | .err e => (s, .err e none)
-    | .panicNoSig => (s, .panicNoSig)
-    | .same => reuse s ⟨⟨q.h, q.r, step⟩, q.body, q.ts⟩
-    | .fresh => freshSignWrong sign p s ⟨⟨q.h, q.r, step⟩, q.body, q.ts⟩
-
-def stepWrong {σ : Type} (sign : SignBytes → σ) (s : State σ) : Op → State σ × Out σ
-  | .sign q => signReqWrong sign .normal s q
-  | .cut c q =>
-    if s.failing then (s, .unsupported)
-    else
-      let r := signReqWrong sign (match c with | .old => .killedOld | .new => .killedNew) (restart s) q
-      (restart r.1, r.2)
-  | op => step sign s op
-
-def runWrong {σ : Type} (sign : SignBytes → σ) (s : State σ) : List Op → State σ
-  | [] => s
-  | op :: ops => runWrong sign (stepWrong sign s op).1 ops
+def runWrong {σ : Type} (sign : SignBytes → σ) : State σ → List Op → State σ :=
+  runWith (freshSignWrong sign)
 
 end GnoVerif.C34
